@@ -165,7 +165,7 @@ func specProbeID(u *udpDriver, ttl uint8) uint16 {
 //@ modifies u.mu, map(u.sentProbes), UDPv4.buffer, ghost clock, ghost wrN, ghost wrClock
 
 //@ func (*udpDriver).ReceiveProbe
-//@ safety C09 C14
+//@ safety C09 C14 C08
 //@ requires[pre.nonnil]     u != nil && u.source != nil && u.parser != nil && u.parser.parserv4 != nil && u.parser.parserv6 != nil && u.config != nil
 //@ requires[C10.recv.open]  selb(isOpen, ref(u.source))
 //@ requires[pre.past]       forall(k, 0, 65536, u.sentProbes[k].sendTime <= now())
